@@ -27,7 +27,7 @@ CHECKS = {
             'Trusts NumPy and vt/dense.py; no truncation (threshold 0, max_rank inf).', '3/C03'),
     'C04': ('property-based testing (Hypothesis): error-bound theorems evaluated from numpy.linalg.svd of the dense unfoldings',
             'Generated tensors with flat, decaying, exactly low-rank(+noise) and zero spectra; all truncation entry points with int '
-            'and per-bond caps and thresholds in [0,1); the oracle is the TT-SVD quasi-optimality bound (with the resulting ranks), '
+            'and per-bond caps and thresholds in [0,1); the oracle is the TT-SVD quasi-optimality bound (for the requested ranks), '
             'the threshold bound theta*||T||*sqrt(D), the rank cap and exactness at threshold 0. Theorem-based oracles cannot raise '
             'false alarms on correct code. Exploration, not proof.',
             'Trusts numpy.linalg.svd; slack 1e-9*||T||; zero tensor only with threshold 0; error bounds only where the opposite '
@@ -63,7 +63,7 @@ CHECKS = {
     'C06': ('property-based testing (Hypothesis): model-based operation histories with shadow copies + exhaustive producer x layout x follow-up cross product',
             'Generated call histories (10..40 steps over a pool of live tensor trains, results fed back as operands, in-place and '
             'overwrite variants interleaved, rank-1 bonds / F-ordered / transposed-view cores) with a shadow of every live object '
-            'compared after every step; plus the complete enumeration of 29 result-returning producers x 7 layout classes x 10 '
+            'compared after every step; plus the complete enumeration of 31 result-returning producers (incl. overwrite targets and constructors called twice) x 7 layout classes x 10 '
             'in-place follow-ups (snapshot before the call: the call itself and later in-place operations on any result must leave '
             'operands and sibling results unchanged); plus an API sweep for TT-returning functions no other check receives. '
             'Exploration with an exhaustive finite part; not a proof.',
@@ -104,7 +104,7 @@ CHECKS = {
             'relevant singular-value ratios, regular and exactly singular Gram matrices, ARR guesses and sweep counts; checks '
             'Xi == (y pinv(Psi))^T, fitted values of the kernel variant, residual descent / rank retention / untouched guess for ARR. '
             'Exploration, not proof.',
-            'Trusts NumPy; guard bands on singular-value ratios (ill-conditioned cases are discarded).', '3/C16'),
+            'Trusts NumPy; guard bands on singular-value ratios (ill-conditioned cases are discarded, except in the dedicated moderately ill-conditioned ARR class with its own slack); residual comparisons carry the resolution eps*||Xi||*||Psi|| of the residual evaluation itself.', '3/C16'),
     'C17': ('property-based testing (Hypothesis): differential against matrix DMD (numpy svd/eig) with scale-free eigen-equations',
             'Generated low-rank snapshot tensors (TT-SVD, random gauge, pre-orthonormalised with flags off, rescaled by 10^k), exact '
             'and standard variants, thresholds; eigenvalue multisets, exact/projected mode equations, inputs untouched, consistent '
